@@ -114,9 +114,11 @@ func (this *Allocator) run() {
 			}
 			switch change.Type {
 			case cluster.NodesChangeAddNode:
-				this.addNodeToPartitions(change.NodeId)
+				// The proposals wait for the catalogue's apply loop, which in turn hands
+				// partition updates to this loop: keep the loop receiving meanwhile
+				go this.addNodeToPartitions(change.NodeId)
 			case cluster.NodesChangeRemoveNode:
-				this.removeNodeFromPartitions(change.NodeId)
+				go this.removeNodeFromPartitions(change.NodeId)
 			}
 		case update := <-this.updatesC:
 			if update == nil {
@@ -172,11 +174,21 @@ func (this *Allocator) canModifyPartition(partition *partition) bool {
 	return this.clusterConn.Id() == this.clusterConn.NodeIds()[0]
 }
 
-func (this *Allocator) addNodeToPartitions(nodeId uint64) {
+// The proposals below wait until the catalogue's apply loop has applied them, and that
+// loop takes partitionsMu in watch/unwatch: work on a copy, not under the lock
+func (this *Allocator) watchedPartitions() []*partition {
 	this.partitionsMu.RLock()
 	defer this.partitionsMu.RUnlock()
 
+	partitions := make([]*partition, 0, len(this.partitions))
 	for _, partition := range this.partitions {
+		partitions = append(partitions, partition)
+	}
+	return partitions
+}
+
+func (this *Allocator) addNodeToPartitions(nodeId uint64) {
+	for _, partition := range this.watchedPartitions() {
 		if this.canModifyPartition(partition) && partition.isUnderReplicated() {
 			partition.proposeAddNode(this.ctx, nodeId)
 		}
@@ -184,10 +196,7 @@ func (this *Allocator) addNodeToPartitions(nodeId uint64) {
 }
 
 func (this *Allocator) removeNodeFromPartitions(nodeId uint64) {
-	this.partitionsMu.RLock()
-	defer this.partitionsMu.RUnlock()
-
-	for _, partition := range this.partitions {
+	for _, partition := range this.watchedPartitions() {
 		if this.canModifyPartition(partition) {
 			partition.proposeRemoveNode(this.ctx, nodeId)
 		}
